@@ -266,6 +266,6 @@ Proof.
     destruct (Hcase k2 v2 (or_intror (or_introl eq_refl))) as [E2|[[E2|E2] _]];
     destruct (Hcase k3 v3 (or_intror (or_intror (or_introl eq_refl)))) as [E3|[[E3|E3] _]];
     destruct (Hcase k4 v4 (or_intror (or_intror (or_intror (or_introl eq_refl))))) as [E4|[[E4|E4] _]];
-    subst; cbn in Hnd; try discriminate.
-  all: idtac "REMAINING". Show. 
+    subst; cbn in Hnd; try discriminate;
+    repeat (rewrite ?andb_false_r, ?andb_false_l in Hnd; cbn in Hnd); discriminate.
 Qed.
